@@ -162,7 +162,8 @@ func (d *Database) NewIterator(prefix []byte, withUpperBound bool) (db.Iterator,
 	)
 
 	for k := range d.db {
-		if strings.HasPrefix(k, pr) && (!withUpperBound || k < ub) {
+		// a nil upper bound (empty or all-0xff prefix) means "unbounded", as in Pebble
+		if strings.HasPrefix(k, pr) && (upperBound == nil || k < ub) {
 			keys = append(keys, k)
 		}
 	}
